@@ -18,6 +18,12 @@ def base_cases(tier, rng, both_modes=True, tol_only=False, strict_only=False, n_
         for s in gen.exhaustive(atoms, k_def if name != 'default' else k_def):
             for tol in modes:
                 yield {'tol': tol, 'ctx': gen.CONTEXTS[name], 's': s}
+    # whitespace-heavy strings: who owns blanks, tabs and newlines next to constructs
+    WS = ['a', ' ', '\n', '\t', '{', '}', '%c\n', '\\x', '~', '\n\n', ' \n\n', '$', '\\textbf', '[', ']', '\\begin{e}', '\\end{e}', '\\\\']
+    for _ in range(1500 if tier == 'quick' else 40000):
+        s = ''.join(rng.choice(WS) for _ in range(rng.randint(2, 9)))
+        for name in ('default', 'C'):
+            yield {'tol': rng.choice(modes), 'ctx': gen.CONTEXTS[name], 's': s}
     n = n_random if n_random is not None else (6000 if tier == 'quick' else 150000)
     names = ['A', 'B', 'C', 'default', 'default']
     for _ in range(n):
